@@ -123,6 +123,9 @@ class Model:
                 if meth == "get_day":
                     self.used.add("A-jd")
                     return True, IFloat(a[0].t)
+        if re.match(r"^core::num::<impl \w+>::abs$", callee) and isinstance(a[0], T):
+            x = a[0]
+            return True, T("(ite (< %s 0) (- %s) %s)" % (x.s, x.s, x.s), "Int")
         if callee.startswith("core::fmt::rt::Argument") and "new_display" in callee:
             return True, Disp(a[0])
         if re.match(r"^Arguments::<'_>::new::<\d+, \d+>$", callee) or callee.startswith("core::fmt::Arguments::<'_>::new"):
